@@ -709,6 +709,78 @@ func stageLifecycleRules(c *core.Ctx, s *Stage, o lifecycleOpts) {
 		}
 	}
 
+	// ---- channels a goroutine is started with ------------------------------------
+	// A goroutine is analysed from the state of the first path that starts it. What that leaves out: another path of
+	// its parent on which a channel variable the goroutine captures (or a channel argument) is still nil at the `go`
+	// statement - every operation on it blocks for ever there (in a select: the arm is never ready), so elements
+	// stop flowing for that configuration. A goroutine that itself compares the variable with nil is left alone.
+	{
+		parents := []*ir.Analysis{s.Outer}
+		for _, g := range s.Gos {
+			parents = append(parents, g.An)
+		}
+		seenGo := map[ssa.Instruction]bool{}
+		for _, pan := range parents {
+			for _, p := range pan.AllPaths() {
+				for _, st := range p.Events(ir.KGo) {
+					if st.Snap == nil || st.Static == nil || st.Instr == nil {
+						continue
+					}
+					var gname string
+					for _, g := range s.Gos {
+						if g.Spawn != nil && g.Spawn.Instr == st.Instr {
+							gname = g.Name
+						}
+					}
+					if gname == "" {
+						continue
+					}
+					if c.Rules["spawn-channels"] == nil {
+						c.Doc("spawn-channels", 1, "no goroutine is started, on any path of its parent, with a channel variable it uses still nil")
+					}
+					bad := ""
+					if st.Callee != nil && st.Callee.Op == "closure" {
+						for i, b := range st.Callee.Args {
+							if i >= len(st.Static.FreeVars) || b == nil {
+								continue
+							}
+							fv := st.Static.FreeVars[i]
+							pt, isP := fv.Type().(*types.Pointer)
+							if !isP {
+								continue
+							}
+							if _, isCh := pt.Elem().Underlying().(*types.Chan); !isCh {
+								continue
+							}
+							v := st.Snap.MemAt(b)
+							if v == nil || !(v.IsNil() || v.Op == "const" && strings.HasPrefix(v.Aux, "zero")) {
+								continue
+							}
+							if freeVarNilTested(st.Static, fv) || freeVarStored(st.Static, fv) || !freeVarDirectChanUse(st.Static, fv) {
+								continue
+							}
+							bad = fv.Name()
+						}
+					}
+					for i, a := range st.A {
+						if a != nil && a.IsNil() && i < len(st.Static.Params) {
+							if _, isCh := st.Static.Params[i].Type().Underlying().(*types.Chan); isCh {
+								bad = st.Static.Params[i].Name()
+							}
+						}
+					}
+					if bad != "" {
+						c.Fail("spawn-channels", gname, st.Pos(), "on one path of %s this goroutine is started while the channel variable %s is still nil: every receive from / send to it blocks for ever on that path (a select arm on it is never ready), so nothing flows for that configuration", ir.FuncName(st.Instr.Parent()), bad)
+						seenGo[st.Instr] = true
+					} else if !seenGo[st.Instr] {
+						seenGo[st.Instr] = true
+						c.Ok("spawn-channels", gname, st.Pos(), "")
+					}
+				}
+			}
+		}
+	}
+
 	// ---- panic sources ---------------------------------------------------------
 	for _, pr := range procs {
 		ok := true
@@ -1794,4 +1866,69 @@ func drainsByClose(an *ir.Analysis, st *ir.Step) bool {
 		}
 	}
 	return n > 0
+}
+
+
+// freeVarNilTested: the function compares (a load of) its captured variable with nil somewhere.
+func freeVarNilTested(fn *ssa.Function, fv *ssa.FreeVar) bool {
+	for _, r := range *fv.Referrers() {
+		ld, ok := r.(*ssa.UnOp)
+		if !ok {
+			continue
+		}
+		for _, u := range *ld.Referrers() {
+			if bo, isB := u.(*ssa.BinOp); isB && (bo.Op == token.EQL || bo.Op == token.NEQ) {
+				if k, isK := bo.X.(*ssa.Const); isK && k.IsNil() {
+					return true
+				}
+				if k, isK := bo.Y.(*ssa.Const); isK && k.IsNil() {
+					return true
+				}
+			}
+		}
+	}
+	return false
+}
+
+// freeVarStored: the function assigns its captured variable itself.
+func freeVarStored(fn *ssa.Function, fv *ssa.FreeVar) bool {
+	for _, r := range *fv.Referrers() {
+		if st, ok := r.(*ssa.Store); ok && st.Addr == ssa.Value(fv) {
+			return true
+		}
+	}
+	return false
+}
+
+
+// freeVarDirectChanUse: the function operates on (a load of) its captured channel variable directly - a send, a
+// receive, a range or a select arm on it - rather than handing it on (to a selector that may answer nil on purpose).
+func freeVarDirectChanUse(fn *ssa.Function, fv *ssa.FreeVar) bool {
+	for _, r := range *fv.Referrers() {
+		ld, ok := r.(*ssa.UnOp)
+		if !ok || ld.Op != token.MUL {
+			continue
+		}
+		for _, u := range *ld.Referrers() {
+			switch x := u.(type) {
+			case *ssa.Send:
+				if x.Chan == ssa.Value(ld) {
+					return true
+				}
+			case *ssa.UnOp:
+				if x.Op == token.ARROW && x.X == ssa.Value(ld) {
+					return true
+				}
+			case *ssa.Range:
+				return true
+			case *ssa.Select:
+				for _, stt := range x.States {
+					if stt.Chan == ssa.Value(ld) {
+						return true
+					}
+				}
+			}
+		}
+	}
+	return false
 }
